@@ -8,7 +8,7 @@ use proptest::strategy::Union;
 
 pub const ALPHA: &[char] = &[
     'a', 'b', 'z', '0', ' ', '\0', '\x7f', 'é', '\u{80}', '\u{7ff}', '€', '\u{800}', '\u{fffd}', '\u{ffff}', '𝄞',
-    '\u{10000}', '\u{10ffff}', 'c', 'd', 'e', 'Q',
+    '\u{10000}', '\u{10ffff}', 'c', 'd', 'e', 'Q', 'я', 'Ж', '\u{3ff}', '\u{400}', 'ÿ', '\u{100}', '\u{300}', 'x', 'y', '1',
 ];
 
 /// Text of exactly `len` bytes built from the alphabet by cycling through `sel`.
@@ -57,6 +57,8 @@ pub struct Profile {
     pub fill_bias: bool,
     /// occasionally append very large texts (up to 1 MiB)
     pub huge_texts: bool,
+    /// sizes that must be rejected before any allocation (above 2^56, near isize::MAX / usize::MAX)
+    pub overflow_sizes: bool,
 }
 
 impl Profile {
@@ -85,6 +87,7 @@ impl Profile {
             max_text: 300,
             fill_bias: false,
             huge_texts: false,
+            overflow_sizes: false,
         }
     }
     pub fn sharing() -> Self {
@@ -194,6 +197,13 @@ pub fn size_strategy(p: &Profile) -> BoxedStrategy<Size> {
     if p.giant_sizes {
         v.push((4, select(size_grid()).prop_map(Size::Abs).boxed()));
         v.push((1, (0u8..=2).prop_map(Size::MaxMinusLenMinus).boxed()));
+    }
+    if p.overflow_sizes {
+        let big: Vec<usize> = (0..=2usize)
+            .flat_map(|d| [usize::MAX - d, (1usize << 56) + d, isize::MAX as usize - d, isize::MAX as usize + 1 + d, (1usize << 60) + d])
+            .collect();
+        v.push((3, select(big).prop_map(Size::Abs).boxed()));
+        v.push((2, (0u8..=2).prop_map(Size::MaxMinusLenMinus).boxed()));
     }
     Union::new_weighted(v).boxed()
 }
